@@ -24,6 +24,21 @@ theorem codeVars_armTests (mod : String) (sp : Span) : ∀ (arms : List (List Ex
     intro lm
     simp only [armTests, codeVars_append, codeVars_litTests, ih, List.append_nil]
 
+theorem codeVars_cgEls (mod : String) (ρ : String → Option String) (sp : Span) : ∀ (xs : List Expr) (lm : LM),
+    ∀ m ∈ codeVars (cgEls mod ρ sp xs lm).1, ∃ x ∈ xs.flatMap Frag.varsE, ρ x = some m := by
+  intro xs
+  induction xs with
+  | nil => intro lm m hm; simp [cgEls, codeVars] at hm
+  | cons x xs ih =>
+    intro lm m hm
+    simp only [cgEls, codeVars_append, List.mem_append] at hm
+    rcases hm with (hm | hm) | hm
+    · obtain ⟨y, hy, h⟩ := (codeVars_cpE mod ρ (Frag.depthE x)).1 x lm (Nat.le_refl _) m hm
+      exact ⟨y, by simp [hy], h⟩
+    · simp [codeVars, var?] at hm
+    · obtain ⟨y, hy, h⟩ := ih _ m hm
+      exact ⟨y, by simp only [List.flatMap_cons, List.mem_append]; exact Or.inr hy, h⟩
+
 theorem codeVars_cgE (mod : String) (ρ φ : String → Option String) : ∀ (n : Nat),
     (∀ (e : Expr) (lm : LM), Frag.depthGE e ≤ n →
       ∀ m ∈ codeVars (cgE mod ρ φ e lm).1, ∃ x ∈ Frag.varsGE e, ρ x = some m) ∧
@@ -51,9 +66,24 @@ theorem codeVars_cgE (mod : String) (ρ φ : String → Option String) : ∀ (n 
     refine ⟨?_, ?_, ?_, ?_⟩
     · intro e lm hd m hm
       cases e
-      case int | bool | str | null | none | float | range | list | anyobj | obj | lambda | assign
-          | index | member | cast | blockE | tryE =>
+      case int | bool | str | null | none | float | range | anyobj | obj | lambda | assign
+          | member | cast | blockE | tryE =>
         simp [cgE, codeVars, var?] at hm
+      case list sp ty xs =>
+        simp only [cgE, codeVars_append, List.mem_append] at hm
+        rcases hm with hm | hm
+        · simp [codeVars, var?] at hm
+        · obtain ⟨y, hy, h⟩ := codeVars_cgEls mod ρ sp xs lm m hm
+          exact ⟨y, by simpa [Frag.varsGE] using hy, h⟩
+      case index sp ty b i =>
+        simp only [Frag.depthGE] at hd
+        simp only [cgE, codeVars_append, List.mem_append] at hm
+        rcases hm with (hm | hm) | hm
+        · obtain ⟨x, hx, h⟩ := ihE b lm (by omega) m hm
+          exact ⟨x, by simp [Frag.varsGE, hx], h⟩
+        · obtain ⟨x, hx, h⟩ := ihE i _ (by omega) m hm
+          exact ⟨x, by simp [Frag.varsGE, hx], h⟩
+        · simp [codeVars, var?] at hm
       case matchE sp ty c arms dflt =>
         cases dflt with
         | none => simp [cgE, codeVars] at hm
@@ -403,7 +433,26 @@ theorem genG_stmt (mod fn : String) (φ : String → Option String) (T : List St
       case exprS sp e =>
         cases e
         case assign asp op l r =>
-          cases op <;> cases l <;> try exact GenG.nil T env
+          cases l <;> try (cases op <;> exact GenG.nil T env)
+          case index isp ity b i =>
+            rw [identsGS_idxAssign] at hT
+            simp only [List.mem_append] at hT
+            have hl := hEl env (.index isp ity b i) env.lm (fun x hx => hT x (Or.inl hx))
+            have hr := hEl env r (cgE mod (ρS env.scopes) φ (.index isp ity b i) env.lm).2 (fun x hx => hT x (Or.inr hx))
+            have hpre : codeVars (opPre op asp) = [] := by cases op <;> rfl
+            have hpost : codeVars (opPost op asp) = [] := by
+              cases op with
+              | none => rfl
+              | some o => exact codeVars_arith o asp
+            have hasg : codeVars [((Instr.assign : SInstr), asp)] = [] := rfl
+            rw [cgS_idxAssign]
+            refine GenG.plain rfl rfl ?_
+            intro m hm
+            simp only [codeVars_append, List.mem_append, hpre, hpost, hasg, List.not_mem_nil, or_false] at hm
+            rcases hm with hm | hm
+            · exact hl m hm
+            · exact hr m hm
+          cases op
           · rename_i isp ity name g isFn isSing
             cases isSing
             case true => cases g <;> exact GenG.nil T env
@@ -426,7 +475,7 @@ theorem genG_stmt (mod fn : String) (φ : String → Option String) (T : List St
                   subst hm
                   exact ρS_mem_liveNames T env.scopes name _ (hT name (Or.inl rfl)) hρ
             · exact GenG.nil T env
-          · rename_i o isp ity name g isFn isSing
+          · rename_i isp ity name g isFn isSing o
             cases isSing
             case true => cases g <;> exact GenG.nil T env
             cases g
